@@ -79,6 +79,11 @@ Eval vm_compute in (show prog_step "mjINT_IMPLICIT").
             en |= 1 << 19      # sleeping enabled (end-to-end clause only; the frame table assumes it off)
         if i % 3 == 1:
             en |= 1 << 20      # multi-input (PID) actuators appended: nu > nactuator
+        if i % 5 == 2:
+            # partial-island scenes (some trees in contact, others in flight); half of them with a cold start
+            en = (en & ~(1 << 20)) | (1 << 21)
+            if i % 2 == 0:
+                en = (en & ~(15 << 14)) | (rng.choice([1, 3, 7, 13]) << 14)
         for recv in range(5):
             integ = rng.choice([0, 1, 2, 3])
             D = {0: Deuler, 1: Drk4, 2: Dimpl, 3: Dimpl}[integ]
